@@ -11,8 +11,33 @@ import (
 // One controlled schedule: foreground operations of several logical workers (handles) interleaved,
 // in an order chosen here, with the completion of background Keep writes (any order, any delay, with
 // failures), explicit flushes and saves.
-func c13Run(t *testing.T, r *vRand, mb, nev int, focus bool) *cfsCtl {
+func c13Run(t *testing.T, r *vRand, mb, nev int, focus bool, scenario int) *cfsCtl {
 	c := newCfsCtl(t, r, mb, true, "", nil)
+	if scenario == 2 {
+		// stratum "mutate while an asynchronous flush is in flight": small buffered segments are
+		// committed in the background (Flush), then the same file is truncated / overwritten /
+		// extended before the Keep write returns, then the write completes.
+		na := 1 + r.Intn(2*mb+2)
+		if mb >= 3 && r.Chance(2, 3) {
+			na = r.Intn(3)*mb + 2 + r.Intn(mb-2) // ends in a short segment of at least 2 bytes
+		}
+		c.runOp(func() { c.se.scriptCreateWrite(r, "a", na, c.addOp) })
+		if r.Bool() {
+			c.runOp(func() { c.se.scriptCreateWrite(r, "b", 1+r.Intn(mb+1), c.addOp) })
+		}
+		c.flush("", true)
+		for k := 0; k < 1+r.Intn(3) && !c.dead; k++ {
+			c.runOp(func() { c.se.scriptMutate(r, 0, c.addOp) })
+			if r.Chance(1, 3) {
+				c.flush("", r.Bool())
+			}
+			if r.Chance(1, 3) {
+				c.completeOne()
+			}
+		}
+		c.completeAll()
+		c.se.readAll("a", c.addOp)
+	}
 	for i := 0; i < nev; i++ {
 		k := r.Intn(100)
 		switch {
@@ -61,7 +86,7 @@ func TestVerifC13(t *testing.T) {
 		if cfsDeadCases >= 3 {
 			break
 		}
-		c := c13Run(t, r, mb, nev, focus)
+		c := c13Run(t, r, mb, nev, focus, i%3)
 		if c.dead {
 			cfsDeadCases++
 		}
